@@ -59,7 +59,7 @@ func genC09(t *rapid.T) any {
 	switch rapid.IntRange(0, 5).Draw(t, "oldMode") {
 	case 0: // blank disk
 	case 1, 2: // independent old table on the same geometry
-		o := &gptSpec{LSS: geo.LSS, Sectors: geo.Sectors, Slack: geo.Slack}
+		o := &gptSpec{LSS: geo.LSS, PSS: geo.PSS, Sectors: geo.Sectors, Slack: geo.Slack}
 		genGPTParts(t, o)
 		forceGUIDs(t, o)
 		c.Old = o
@@ -103,7 +103,7 @@ func genC09(t *rapid.T) any {
 		c.Old = &o
 	}
 	if c.Old != nil && rapid.IntRange(0, 3).Draw(t, "preMode") == 0 {
-		a := &gptSpec{LSS: geo.LSS, Sectors: geo.Sectors, Slack: geo.Slack}
+		a := &gptSpec{LSS: geo.LSS, PSS: geo.PSS, Sectors: geo.Sectors, Slack: geo.Slack}
 		genGPTParts(t, a)
 		forceGUIDs(t, a)
 		c.Pre = &c09Pre{A: *a, Epoch: rapid.IntRange(0, 5).Draw(t, "preEpoch"), Sub: rapid.IntRange(0, 200).Draw(t, "preSub")}
@@ -269,7 +269,7 @@ func execC09(ci any) (r hx.Result) {
 		})
 		var pt partition.Table
 		var err error
-		if p, pv, st := hx.Safe(func() { pt, err = partition.Read(img, lss, lss) }); p {
+		if p, pv, st := hx.Safe(func() { pt, err = partition.Read(img, lss, nw.pss()) }); p {
 			r.Fail("crash-read-panic", "preparation (crash in epoch %d subset %s): partition.Read panicked: %v [%s]", e, chosen, pv, st)
 			return
 		}
@@ -295,7 +295,7 @@ func execC09(ci any) (r hx.Result) {
 			return
 		}
 		var gt2 *gpt.Table
-		if p, _, _ := hx.Safe(func() { pt, err = partition.Read(img, lss, lss) }); !p && err == nil {
+		if p, _, _ := hx.Safe(func() { pt, err = partition.Read(img, lss, nw.pss()) }); !p && err == nil {
 			gt2, _ = pt.(*gpt.Table)
 		}
 		if gt2 == nil || tableSig(gt2) != oldSig || gt2.RecoveredFromBackup {
@@ -344,7 +344,7 @@ func execC09(ci any) (r hx.Result) {
 	check := func(img *dev.Device, where string, final bool) bool {
 		var pt partition.Table
 		var err error
-		if p, pv, st := hx.Safe(func() { pt, err = partition.Read(img, lss, lss) }); p {
+		if p, pv, st := hx.Safe(func() { pt, err = partition.Read(img, lss, nw.pss()) }); p {
 			r.Fail("crash-read-panic", "%s: partition.Read panicked: %v [%s]", where, pv, st)
 			return false
 		}
